@@ -369,6 +369,26 @@ func ruleR11_2(r *Run) {
 // heldWriteForObject: the mutex field `mu` is write-held at `at`.  For embedded RWMutex (one per
 // object) the lock must be on the same object as the field written.
 func heldWriteForObject(f *ssa.Function, at ssa.Instruction, mu string, obj ssa.Value) bool {
+	// embedded RWMutex: several objects of one function carry a mutex of that name (repo, dag, node);
+	// follow the access path of the object's own mutex
+	if mu == "RWMutex" {
+		for _, b := range f.Blocks {
+			for _, in := range b.Instrs {
+				op, ok := asLockOp(in)
+				if !ok || !op.lock || !op.write || op.name != mu {
+					continue
+				}
+				c := in.(*ssa.Call)
+				fa, ok := c.Call.Args[0].(*ssa.FieldAddr)
+				if !ok || !(sameRoots(fa.X, obj, f) || placeKey(fa.X) == placeKey(obj)) {
+					continue
+				}
+				if held, write := heldKeyAt(f, at, op.key); held && write {
+					return true
+				}
+			}
+		}
+	}
 	held, by := heldAt(f, at, mu, true)
 	if !held {
 		return false
